@@ -57,8 +57,25 @@ def documents(tier='quick'):
     docs.append(('crcrlf', '2000-01-01 open Assets:Foo\r\r\n; c\r\r\n\r\r\n2000-01-02 close Assets:Foo\r\r\n'))
     docs.append(('crcrlf-end', '2000-01-01 open Assets:Foo\r\r\n'))
     docs.append(('standalone-comments', '2000-01-01 open Assets:Foo\n\n; s1\n\n; s2\n; s2b\n\n2000-01-02 * "t"\n    Assets:Foo  1 USD\n    Assets:Bar\n\n; s3\n\n2000-01-03 close Assets:Foo\n'))
+    docs.append(('meta-amount', '2000-01-01 *\n    note: "n"\n    price: 10.00 USD\n    acct: Assets:Foo\n    Assets:Foo  1 STOCK\n        cost: 2 USD\n    Assets:Bar\n'))
+    docs.append(('para-comments', '2000-01-01 *\n    ; p1\n    ;\n    ; p2\n    Assets:Foo  1 USD\n    ; q1\n    ;\n    ; q2\n    Assets:Bar\n'))
     docs.append(('org-headings', '* Heading\n** Sub\n2000-01-01 open Assets:Foo\n'))
     return docs
+
+
+def eol_variants():
+    """line-terminator variants of a few documents (C01): CRLF, CR CR LF, no final newline, a bare CR at the end, ignored (org-mode / flag) lines with those endings.
+    Variants the parser does not accept are skipped by the driver, they are not failures."""
+    d = dict(documents())
+    base = [(k, d[k]) for k in ('open2', 'txn2', 'org-headings', 'only-comment', 'indented-comments', 'standalone-comments')]
+    base += [('ignored-lines', '* Heading\n** Sub\n2000-01-01 open Assets:Foo\n* Notes\n'), ('ignored-only', '* Heading'), ('flag-line', '! something\n2000-01-01 open Assets:Foo\n# hash\n')]
+    out = []
+    for name, text in base:
+        crlf = text.replace('\n', '\r\n')
+        for tag, v in (('crlf', crlf), ('crcrlf', text.replace('\n', '\r\r\n')), ('noeol', text.rstrip('\n')), ('crlf-noeol', crlf.rstrip('\n').rstrip('\r')),
+                       ('cr-end', text.rstrip('\n') + '\r'), ('crlf-cr-end', crlf.rstrip('\n')), ('crcr-end', text.rstrip('\n') + '\r\r'), ('ws-end', text.rstrip('\n') + '  ')):
+            if v != text: out.append((f'{name}~{tag}', v))
+    return out
 
 
 def small_documents():
